@@ -23,15 +23,15 @@ Definition cr : Z := 13.
 
 (* dropCR *)
 Definition drop_cr (l : gostring) : gostring :=
-  match rev l with
-  | 13 :: r => rev r
+  match frev l with
+  | 13 :: r => frev r
   | _ => l
   end.
 
 (* the pieces at line feeds, without the empty rest after a final line feed *)
 Definition strip_last_empty (pieces : list gostring) : list gostring :=
-  match rev pieces with
-  | [] :: r => rev r
+  match frev pieces with
+  | [] :: r => frev r
   | _ => pieces
   end.
 
